@@ -131,6 +131,34 @@ func (c *Ctx) keySignature2(u *FuncUnit, v *types.Var, cs codecShape, depth int)
 		}
 		return true
 	})
+	// a key that arrives as a parameter of a helper the entry point delegates to
+	// (unlink(keyS, colKey)): its derivation is that of the argument at the (only) call site
+	if len(defs) == 0 && u.Lit == nil && c.sigDepth < 3 {
+		if id := identOfVar(u, v, info); id != nil {
+			if pi := c.m.paramIndex(u, id); pi >= 0 {
+				sigs := map[string]bool{}
+				for _, s := range c.callSitesOf(u) {
+					if c.sigKind != "" && s.u.Recv != "" && s.u.Recv != c.sigKind {
+						continue // a helper shared by all tree kinds: the call site of this kind
+					}
+					if a := argFor(s.call, pi); a != nil {
+						if av := identVar(info, a); av != nil {
+							c.sigDepth++
+							sigs[c.keySignature2(s.u, av, cs, 0)] = true
+							c.sigDepth--
+						} else {
+							sigs["?"] = true
+						}
+					}
+				}
+				if len(sigs) == 1 {
+					for sg := range sigs {
+						return sg
+					}
+				}
+			}
+		}
+	}
 	sort.Slice(defs, func(i, j int) bool { return defs[i].pos < defs[j].pos })
 	// copies from a variable with the same derivation are neutral (start, end = end, start)
 	var base []string
@@ -202,10 +230,11 @@ func ruleR08(c *Ctx) {
 		roleA := map[string]string{} // entry point → signature of the variable compared with getKey()
 		roleB := map[string]string{} // entry point → signature of the variable driving the descent
 		for _, mn := range []string{"Insert", "Search", "Delete"} {
-			u := tk.Methods[mn]
+			u := m.algorithmUnit(tk, mn)
 			if u == nil {
 				continue
 			}
+			c.sigKind = tk.Name
 			for _, eg := range c.equalGuards(u) {
 				roleA[mn] = c.keySignature(u, eg.probe, cs)
 			}
